@@ -331,7 +331,9 @@ class C01(Check):
                   "stats_reply_list_roundtrip / stats_body_roundtrip (body dispatch by type code, list bodies with nested actions); match_roundtrip (both modes, normal matches) and "
                   "match_roundtrip_fm (flow_mod mode, EVERY in-range match decodes to fix(m)); NXM TLV framing (nxm_roundtrip, nx_match_roundtrip); nx_flow_mod_roundtrip, "
                   "nxt_packet_in_roundtrip. By `decide` over data regenerated from the source on every run: pack layout = unpack layout = openflow.h layout, __len__, registries, "
-                  "pinned irregular / untranslated / uncovered lists. NOT proved, tested only by the correspondence run and the oracle: NXM field semantics (value/mask conversions, "
+                  "(each Spec-table class: translated with the standard's layout, or named by the translator as not read = untied, reported in evidence, still compared "
+                  "with the standard's layout by the oracle on the real code); the pins over today's classes (untranslated / irregular / uncovered lists, instances, "
+                  "examples) are in Properties/C01Pins.lean, built separately and reported as pins_ok. NOT proved, tested only by the correspondence run and the oracle: NXM field semantics (value/mask conversions, "
                   "prerequisites), the classes of uncovered_pinned (nx_output_reg, nx_reg_move, nx_reg_load: layout checked and bytes compared through the model, values computed from NXM "
                   "classes; nx_action_bundle, nx_action_learn/flow_mod_spec, ofp_flow_mod_table_id: oracle only), nx_flow_mod's own `data` magic, Python __eq__. "
                   "Readings recorded: plain-mode matches are read over Normal ones; an all-ones NXM mask is the same entry as no mask; ofp_action_output is read after pack() has "
@@ -983,9 +985,11 @@ class C01(Check):
         seen = set()
         for spec in self.all_class_specs(rng):
             cname = spec["cls"]
-            if cname in seen or cname not in self.lay or cname == "ofp_match": continue
+            if cname in seen or cname == "ofp_match": continue
+            if cname in self.lay: fixed, tail = self.lay[cname]["pack"]
+            elif cname in self.spec["table"]: fixed, tail = self.spec["table"][cname]     # untied class: widths from the standard
+            else: continue
             seen.add(cname)
-            fixed, tail = self.lay[cname]["pack"]
             for f in fixed:
                 if f[0] != "uint" or f[1] not in spec.get("kw", {}): continue
                 if f[1] == "type" and cname != "ofp_error": continue      # the type code must be the one that names the class / body
